@@ -93,6 +93,14 @@ def evaluate(case):
         for idx in net.heat_consumer.index:
             s = sts.get(("heat_consumer", int(idx)))
             if s is None or s["m"] < 1e-8:
+                # a supplied, in-service consumer with a prescribed mass flow must carry it (also when the reported flow is zero)
+                row = net.heat_consumer.loc[idx]
+                m_rep = float(net.res_heat_consumer.at[idx, "mdot_from_kg_per_s"])
+                if bool(row.in_service) and hc_mode(row).startswith("mf_") and np.isfinite(m_rep) and \
+                        not abs(m_rep - row.controlled_mdot_kg_per_s) <= 1e-6 * max(1.0, abs(row.controlled_mdot_kg_per_s)):
+                    f.append(Finding("setpoint", "C11.setpoint.%s.mdot" % hc_mode(row) + ("" if bidir else ".sequential"),
+                                     {"heat_consumer": int(idx), "mode": hc_mode(row), "quantity": "mdot", "reported": m_rep,
+                                      "set": float(row.controlled_mdot_kg_per_s)}))
                 continue
             row = net.heat_consumer.loc[idx]
             res = net.res_heat_consumer.loc[idx]
